@@ -1,11 +1,665 @@
-//! (not built yet)
-use serde_json::Value;
-use vcore::Run;
+//! C12 (end-to-end half) — connection-level HTTP/3 / WebTransport rules enforced with the
+//! prescribed error code.
 
-pub fn run(run: &Run) {
-    run.inconclusive("check not built yet");
+use crate::common::*;
+use proptest::prelude::*;
+use refcodec::registry as reg;
+use serde::{Deserialize, Serialize};
+use serde_json::Value;
+use std::sync::Arc;
+use std::time::Duration;
+use vcore::{prop_search, Outcome, Run, Search};
+use wire::*;
+
+const RULE: &str = "end-to-end: histories of 1..5 connection-level events sent by the raw peer on either role — control stream opened with {valid SETTINGS, DATA first, HEADERS first, GREASE first, reserved setting id, duplicated setting id}; then {duplicate control stream, QPACK encoder/decoder stream (+ duplicate), unknown / GREASE uni stream, FIN or RESET of a critical stream, uni stream finished or reset inside its type varint, DATA / HEADERS / second SETTINGS / oversize / GREASE frame on the control stream, request whose first frame is DATA or SETTINGS, GET request, CONNECT without :protocol, WT streams with valid and invalid session ids, GREASE then WT signal on a bidi stream, SETTINGS / HEADERS / WT signal / GREASE on the established session stream}. Reference model (RFC 9114 §4.1, §6.2, §6.2.1, §7.2.x, RFC 9204 §4.2, WT draft): each event maps to continue / refuse that stream (code) / close the connection (admissible code set). Oracle: the first closing event decides the CONNECTION_CLOSE code seen by the raw peer and the local API error; histories without a closing event leave the session usable (fresh stream echo), and refused requests carry the prescribed STOP_SENDING code. Non-trivial: the history contains an event whose prescribed reaction is not 'continue'; distinct = distinct history";
+
+#[derive(Clone, Debug, Serialize, Deserialize, PartialEq)]
+pub enum Ev {
+    DuplicateControl,
+    QpackEnc,
+    QpackDec,
+    UnknownUni(u64),
+    FinControl,
+    ResetControl,
+    FinQpackEnc,
+    UniFinInsideType,
+    UniResetInsideType,
+    UniFinBeforeAnyByte,
+    ControlData,
+    ControlHeaders,
+    ControlSecondSettings,
+    ControlOversize,
+    ControlGrease,
+    ControlTruncatedThenFin,
+    RequestDataFirst,
+    RequestSettingsFirst,
+    RequestGet,
+    RequestNoProtocol,
+    WtUniValid,
+    WtUniInvalid(u8),
+    WtBiValid,
+    WtBiInvalid(u8),
+    BiGreaseThenWt,
+    SessionSettings,
+    SessionHeaders,
+    SessionWtSignal,
+    SessionGrease,
 }
 
-pub fn replay(_run: &Run, _doc: &Value) -> bool {
-    false
+#[derive(Clone, Copy, Debug, Serialize, Deserialize, PartialEq)]
+pub enum Pre {
+    Valid,
+    DataFirst,
+    HeadersFirst,
+    GreaseFirst,
+    ReservedSetting(u8),
+    DuplicateSetting,
+}
+
+#[derive(Clone, Debug, Serialize, Deserialize)]
+pub struct Case {
+    pub flavor: u8,
+    pub wt_is_server: bool,
+    pub pre: Pre,
+    pub events: Vec<Ev>,
+}
+
+#[derive(Clone, Debug, PartialEq)]
+pub enum Reaction {
+    Continue,
+    /// the event's own stream is refused with STOP_SENDING of one of these codes
+    Refuse(Vec<u64>),
+    Close(Vec<u64>),
+}
+
+/// Reference model. `state` tracks which critical streams the peer has already opened.
+#[derive(Default)]
+struct Model {
+    qenc: bool,
+    qdec: bool,
+}
+
+impl Model {
+    fn react(&mut self, ev: &Ev, wt_is_server: bool) -> Reaction {
+        use Reaction::*;
+        match ev {
+            Ev::DuplicateControl => Close(vec![reg::H3_STREAM_CREATION_ERROR]),
+            Ev::QpackEnc => {
+                if std::mem::replace(&mut self.qenc, true) {
+                    Close(vec![reg::H3_STREAM_CREATION_ERROR])
+                } else {
+                    Continue
+                }
+            }
+            Ev::QpackDec => {
+                if std::mem::replace(&mut self.qdec, true) {
+                    Close(vec![reg::H3_STREAM_CREATION_ERROR])
+                } else {
+                    Continue
+                }
+            }
+            Ev::UnknownUni(_) => Continue,
+            Ev::FinControl | Ev::ResetControl => Close(vec![reg::H3_CLOSED_CRITICAL_STREAM]),
+            Ev::FinQpackEnc => {
+                if self.qenc {
+                    Close(vec![reg::H3_CLOSED_CRITICAL_STREAM])
+                } else {
+                    Continue
+                }
+            }
+            // RFC 9114 §6.2: "A receiver MUST tolerate unidirectional streams being closed or reset
+            // prior to the reception of the unidirectional stream header."
+            Ev::UniFinInsideType | Ev::UniResetInsideType | Ev::UniFinBeforeAnyByte => Continue,
+            Ev::ControlData | Ev::ControlHeaders | Ev::ControlSecondSettings => Close(vec![reg::H3_FRAME_UNEXPECTED]),
+            Ev::ControlOversize => Close(vec![reg::H3_EXCESSIVE_LOAD]),
+            Ev::ControlGrease => Continue,
+            Ev::ControlTruncatedThenFin => Close(vec![reg::H3_FRAME_ERROR, reg::H3_CLOSED_CRITICAL_STREAM]),
+            Ev::RequestDataFirst | Ev::RequestSettingsFirst => Close(vec![reg::H3_FRAME_UNEXPECTED]),
+            Ev::RequestGet => {
+                if wt_is_server {
+                    Refuse(vec![reg::H3_REQUEST_REJECTED])
+                } else {
+                    Continue
+                }
+            }
+            Ev::RequestNoProtocol => {
+                if wt_is_server {
+                    Refuse(vec![reg::H3_MESSAGE_ERROR, reg::H3_REQUEST_REJECTED])
+                } else {
+                    Continue
+                }
+            }
+            Ev::WtUniValid | Ev::WtBiValid => Continue,
+            Ev::WtUniInvalid(_) | Ev::WtBiInvalid(_) => Close(vec![reg::H3_ID_ERROR]),
+            Ev::BiGreaseThenWt => Close(vec![reg::H3_FRAME_ERROR]),
+            Ev::SessionSettings => Close(vec![reg::H3_FRAME_UNEXPECTED]),
+            Ev::SessionHeaders | Ev::SessionGrease => Continue,
+            Ev::SessionWtSignal => Close(vec![reg::H3_FRAME_UNEXPECTED, reg::H3_FRAME_ERROR]),
+        }
+    }
+}
+
+fn pre_reaction(pre: Pre) -> Reaction {
+    match pre {
+        Pre::Valid => Reaction::Continue,
+        Pre::DataFirst | Pre::HeadersFirst => Reaction::Close(vec![reg::H3_MISSING_SETTINGS, reg::H3_FRAME_UNEXPECTED]),
+        // GREASE before SETTINGS: "SETTINGS MUST be the first frame" -> MISSING_SETTINGS; tolerating it is not forbidden
+        Pre::GreaseFirst => Reaction::Close(vec![reg::H3_MISSING_SETTINGS]),
+        Pre::ReservedSetting(_) => Reaction::Close(vec![reg::H3_SETTINGS_ERROR]),
+        Pre::DuplicateSetting => Reaction::Close(vec![reg::H3_SETTINGS_ERROR]),
+    }
+}
+
+fn ev_strategy() -> impl Strategy<Value = Ev> {
+    prop_oneof![
+        Just(Ev::DuplicateControl),
+        Just(Ev::QpackEnc),
+        Just(Ev::QpackDec),
+        prop_oneof![Just(0x3fu64), Just(0x04), Just(0x21), Just(0x4242), (6u64..1 << 40).prop_filter("not wt", |t| *t != 0x54)].prop_map(Ev::UnknownUni),
+        Just(Ev::FinControl),
+        Just(Ev::ResetControl),
+        Just(Ev::FinQpackEnc),
+        Just(Ev::UniFinInsideType),
+        Just(Ev::UniResetInsideType),
+        Just(Ev::UniFinBeforeAnyByte),
+        Just(Ev::ControlData),
+        Just(Ev::ControlHeaders),
+        Just(Ev::ControlSecondSettings),
+        Just(Ev::ControlOversize),
+        Just(Ev::ControlGrease),
+        Just(Ev::ControlTruncatedThenFin),
+        Just(Ev::RequestDataFirst),
+        Just(Ev::RequestSettingsFirst),
+        Just(Ev::RequestGet),
+        Just(Ev::RequestNoProtocol),
+        Just(Ev::WtUniValid),
+        (1u8..4).prop_map(Ev::WtUniInvalid),
+        Just(Ev::WtBiValid),
+        (1u8..4).prop_map(Ev::WtBiInvalid),
+        Just(Ev::BiGreaseThenWt),
+        Just(Ev::SessionSettings),
+        Just(Ev::SessionHeaders),
+        Just(Ev::SessionWtSignal),
+        Just(Ev::SessionGrease),
+    ]
+}
+
+pub fn case_strategy() -> impl Strategy<Value = Case> {
+    let pre = prop_oneof![8 => Just(Pre::Valid), 1 => Just(Pre::DataFirst), 1 => Just(Pre::HeadersFirst), 1 => Just(Pre::GreaseFirst), 1 => (0u8..5).prop_map(Pre::ReservedSetting), 1 => Just(Pre::DuplicateSetting)];
+    (0u8..3, any::<bool>(), pre, proptest::collection::vec(ev_strategy(), 1..6)).prop_map(|(flavor, wt_is_server, pre, events)| Case { flavor, wt_is_server, pre, events })
+}
+
+fn control_preamble_for(pre: Pre) -> Vec<u8> {
+    let mut v = refcodec::enc_varint(reg::STREAM_CONTROL);
+    let settings = |pairs: &[(u64, u64)]| refcodec::enc_frame(reg::FRAME_SETTINGS, &refcodec::enc_settings(pairs));
+    match pre {
+        Pre::Valid => v.extend(settings(&default_settings())),
+        Pre::DataFirst => {
+            v.extend(refcodec::enc_frame(reg::FRAME_DATA, b"x"));
+            v.extend(settings(&default_settings()));
+        }
+        Pre::HeadersFirst => {
+            v.extend(refcodec::enc_frame(reg::FRAME_HEADERS, &[0, 0]));
+            v.extend(settings(&default_settings()));
+        }
+        Pre::GreaseFirst => {
+            v.extend(refcodec::enc_frame(refcodec::grease(2), b"g"));
+            v.extend(settings(&default_settings()));
+        }
+        Pre::ReservedSetting(k) => {
+            let mut p = default_settings();
+            p.insert(2, ([0u64, 2, 3, 4, 5][k as usize % 5], 1));
+            v.extend(settings(&p));
+        }
+        Pre::DuplicateSetting => {
+            let mut p = default_settings();
+            p.push((reg::SETTINGS_H3_DATAGRAM, 1));
+            v.extend(settings(&p));
+        }
+    }
+    v
+}
+
+struct Peer {
+    conn: quinn::Connection,
+    control: quinn::SendStream,
+    req_send: Option<quinn::SendStream>,
+    qenc: Option<quinn::SendStream>,
+    session: u64,
+    held: Vec<Box<dyn std::any::Any + Send>>,
+}
+
+impl Peer {
+    /// Plays one event; returns the send half of the event's own stream when the model may refuse it.
+    async fn play(&mut self, ev: &Ev, authority: &str) -> Option<quinn::SendStream> {
+        let frame = refcodec::enc_frame;
+        match ev {
+            Ev::DuplicateControl => {
+                if let Ok(mut s) = self.conn.open_uni().await {
+                    let _ = s.write_all(&control_preamble(&default_settings())).await;
+                    self.held.push(Box::new(s));
+                }
+            }
+            Ev::QpackEnc | Ev::QpackDec => {
+                if let Ok(mut s) = self.conn.open_uni().await {
+                    let ty = if *ev == Ev::QpackEnc { reg::STREAM_QPACK_ENCODER } else { reg::STREAM_QPACK_DECODER };
+                    let _ = s.write_all(&refcodec::enc_varint(ty)).await;
+                    if *ev == Ev::QpackEnc && self.qenc.is_none() {
+                        self.qenc = Some(s);
+                    } else {
+                        self.held.push(Box::new(s));
+                    }
+                }
+            }
+            Ev::UnknownUni(t) => {
+                if let Ok(mut s) = self.conn.open_uni().await {
+                    let mut b = refcodec::enc_varint(*t);
+                    b.extend_from_slice(b"opaque");
+                    let _ = s.write_all(&b).await;
+                    self.held.push(Box::new(s));
+                }
+            }
+            Ev::FinControl => {
+                let _ = self.control.finish();
+            }
+            Ev::ResetControl => {
+                let _ = self.control.reset(vi(0));
+            }
+            Ev::FinQpackEnc => {
+                if let Some(s) = self.qenc.as_mut() {
+                    let _ = s.finish();
+                }
+            }
+            Ev::UniFinInsideType | Ev::UniResetInsideType | Ev::UniFinBeforeAnyByte => {
+                if let Ok(mut s) = self.conn.open_uni().await {
+                    if *ev != Ev::UniFinBeforeAnyByte {
+                        let _ = s.write_all(&[0x40]).await;
+                        flush_acked(&self.conn, Duration::from_millis(100)).await;
+                    }
+                    if *ev == Ev::UniResetInsideType {
+                        let _ = s.reset(vi(9));
+                    } else {
+                        let _ = s.finish();
+                    }
+                    self.held.push(Box::new(s));
+                }
+            }
+            Ev::ControlData => {
+                let _ = self.control.write_all(&frame(reg::FRAME_DATA, b"d")).await;
+            }
+            Ev::ControlHeaders => {
+                let _ = self.control.write_all(&frame(reg::FRAME_HEADERS, &[0, 0])).await;
+            }
+            Ev::ControlSecondSettings => {
+                let _ = self.control.write_all(&frame(reg::FRAME_SETTINGS, &[])).await;
+            }
+            Ev::ControlOversize => {
+                let _ = self.control.write_all(&refcodec::enc_frame_header(refcodec::grease(1), 5000)).await;
+            }
+            Ev::ControlGrease => {
+                let _ = self.control.write_all(&frame(refcodec::grease(11), b"grease")).await;
+            }
+            Ev::ControlTruncatedThenFin => {
+                let mut b = refcodec::enc_frame_header(refcodec::grease(1), 20);
+                b.extend_from_slice(b"abc");
+                let _ = self.control.write_all(&b).await;
+                let _ = self.control.finish();
+            }
+            Ev::RequestDataFirst | Ev::RequestSettingsFirst | Ev::RequestGet | Ev::RequestNoProtocol => {
+                if let Ok((mut s, r)) = self.conn.open_bi().await {
+                    let b = match ev {
+                        Ev::RequestDataFirst => frame(reg::FRAME_DATA, b"body"),
+                        Ev::RequestSettingsFirst => frame(reg::FRAME_SETTINGS, &[]),
+                        Ev::RequestGet => headers_frame(&[(":method".into(), "GET".into(), Default::default()), (":scheme".into(), "https".into(), Default::default()), (":authority".into(), authority.into(), Default::default()), (":path".into(), "/".into(), Default::default())]),
+                        _ => headers_frame(&[(":method".into(), "CONNECT".into(), Default::default()), (":scheme".into(), "https".into(), Default::default()), (":authority".into(), authority.into(), Default::default()), (":path".into(), "/".into(), Default::default())]),
+                    };
+                    let _ = s.write_all(&b).await;
+                    self.held.push(Box::new(r));
+                    return Some(s);
+                }
+            }
+            Ev::WtUniValid => {
+                if let Ok(mut s) = raw_open_wt_uni(&self.conn, self.session).await {
+                    let _ = s.write_all(b"ok").await;
+                    self.held.push(Box::new(s));
+                }
+            }
+            Ev::WtUniInvalid(k) => {
+                if let Ok(mut s) = self.conn.open_uni().await {
+                    let _ = s.write_all(&refcodec::enc_uni_header_wt(self.session + *k as u64)).await;
+                    self.held.push(Box::new(s));
+                }
+            }
+            Ev::WtBiValid => {
+                if let Ok((mut s, r)) = raw_open_wt_bi(&self.conn, self.session).await {
+                    let _ = s.write_all(b"ok").await;
+                    self.held.push(Box::new((s, r)));
+                }
+            }
+            Ev::WtBiInvalid(k) => {
+                if let Ok((mut s, r)) = self.conn.open_bi().await {
+                    let _ = s.write_all(&refcodec::enc_bi_header_wt(self.session + *k as u64)).await;
+                    self.held.push(Box::new((s, r)));
+                }
+            }
+            Ev::BiGreaseThenWt => {
+                if let Ok((mut s, r)) = self.conn.open_bi().await {
+                    let mut b = frame(refcodec::grease(4), b"g");
+                    b.extend(refcodec::enc_bi_header_wt(self.session));
+                    let _ = s.write_all(&b).await;
+                    self.held.push(Box::new((s, r)));
+                }
+            }
+            Ev::SessionSettings | Ev::SessionHeaders | Ev::SessionWtSignal | Ev::SessionGrease => {
+                if let Some(s) = self.req_send.as_mut() {
+                    let b = match ev {
+                        Ev::SessionSettings => frame(reg::FRAME_SETTINGS, &[]),
+                        Ev::SessionHeaders => frame(reg::FRAME_HEADERS, &[0, 0]),
+                        Ev::SessionWtSignal => refcodec::enc_bi_header_wt(self.session),
+                        _ => frame(refcodec::grease(6), b"gg"),
+                    };
+                    let _ = s.write_all(&b).await;
+                }
+            }
+        }
+        None
+    }
+}
+
+async fn exec_async(case: Arc<Case>) -> CaseResult {
+    let t = Tuning::default();
+    let pre_react = pre_reaction(case.pre);
+    // --- establish (or fail to) with the chosen control-stream opening
+    let app: Option<wtransport::Connection>;
+    let mut peer: Peer;
+    let establish_err: Option<String>;
+    let authority: String;
+    let _keep: Box<dyn std::any::Any + Send>;
+    if case.wt_is_server {
+        let server_ep = wt_server(&t);
+        let addr = server_ep.local_addr().unwrap();
+        authority = addr.to_string();
+        let accept = async {
+            let incoming = server_ep.accept().await;
+            let req = incoming.await.map_err(|e| conn_err(&e))?;
+            req.accept().await.map_err(|e| conn_err(&e))
+        };
+        let pre = case.pre;
+        let auth2 = authority.clone();
+        let client = async {
+            let (ep, conn) = raw_connect(addr, &t).await?;
+            let mut control = conn.open_uni().await.map_err(|e| e.to_string())?;
+            control.write_all(&control_preamble_for(pre)).await.map_err(|e| e.to_string())?;
+            let (mut rs, mut rr) = conn.open_bi().await.map_err(|e| e.to_string())?;
+            let sid = quinn::VarInt::from(rs.id()).into_inner();
+            rs.write_all(&headers_frame(&connect_request_fields(&auth2, "/c12"))).await.map_err(|e| e.to_string())?;
+            let mut buf = Vec::new();
+            let resp = read_frame_of(&mut rr, &mut buf, &[reg::FRAME_HEADERS], Duration::from_secs(3)).await;
+            Ok::<_, String>((ep, conn, control, rs, rr, sid, resp.is_ok()))
+        };
+        let (s, c) = tokio::join!(tokio::time::timeout(Duration::from_secs(4), accept), client);
+        let (ep, conn, control, rs, rr, sid, _got) = match c {
+            Ok(x) => x,
+            Err(e) => return CaseResult::Skip(e),
+        };
+        match s {
+            Ok(Ok(a)) => {
+                app = Some(a);
+                establish_err = None;
+            }
+            Ok(Err(e)) => {
+                app = None;
+                establish_err = Some(e);
+            }
+            Err(_) => {
+                app = None;
+                establish_err = Some("timeout".into());
+            }
+        }
+        peer = Peer { conn, control, req_send: Some(rs), qenc: None, session: sid, held: vec![Box::new(rr)] };
+        _keep = Box::new((server_ep, ep));
+    } else {
+        let (raw_ep, addr) = match raw_server(&t) {
+            Ok(x) => x,
+            Err(e) => return CaseResult::Skip(e),
+        };
+        authority = addr.to_string();
+        let client_ep = wt_client(&t);
+        let pre = case.pre;
+        let serve = async {
+            let incoming = tokio::time::timeout(Duration::from_secs(5), raw_ep.accept()).await.map_err(|_| "no incoming")?.ok_or("closed")?;
+            let conn = incoming.await.map_err(|e| e.to_string())?;
+            let mut control = conn.open_uni().await.map_err(|e| e.to_string())?;
+            control.write_all(&control_preamble_for(pre)).await.map_err(|e| e.to_string())?;
+            // the request arrives only if the client accepted our SETTINGS
+            match tokio::time::timeout(Duration::from_secs(3), conn.accept_bi()).await {
+                Ok(Ok((mut rs, mut rr))) => {
+                    let sid = quinn::VarInt::from(rs.id()).into_inner();
+                    let mut buf = Vec::new();
+                    let _ = read_frame_of(&mut rr, &mut buf, &[reg::FRAME_HEADERS], Duration::from_secs(3)).await;
+                    let _ = rs.write_all(&response_frame("200", &[])).await;
+                    Ok::<_, String>((conn, control, Some(rs), Some(rr), sid))
+                }
+                _ => Ok((conn, control, None, None, 0)),
+            }
+        };
+        let (s, c) = tokio::join!(serve, tokio::time::timeout(Duration::from_secs(6), client_ep.connect(url_for(addr, "/c12"))));
+        let (conn, control, rs, rr, sid) = match s {
+            Ok(x) => x,
+            Err(e) => return CaseResult::Skip(e),
+        };
+        match c {
+            Ok(Ok(a)) => {
+                app = Some(a);
+                establish_err = None;
+            }
+            Ok(Err(e)) => {
+                app = None;
+                establish_err = Some(match e {
+                    wtransport::error::ConnectingError::ConnectionError(ce) => conn_err(&ce),
+                    other => other.to_string(),
+                });
+            }
+            Err(_) => {
+                app = None;
+                establish_err = Some("timeout".into());
+            }
+        }
+        peer = Peer { conn, control, req_send: rs, qenc: None, session: sid, held: vec![Box::new(rr)] };
+        _keep = Box::new((client_ep, raw_ep));
+    }
+    let mut labels: Vec<&'static str> = vec![if case.wt_is_server { "role:server" } else { "role:client" }];
+    // --- the control-stream opening itself
+    if let Reaction::Close(codes) = &pre_react {
+        labels.push("pre:closing");
+        let seen = tokio::time::timeout(Duration::from_secs(4), peer.conn.closed()).await;
+        return match seen {
+            Ok(e) => match close_seen(&e) {
+                CloseSeen::Application(c, _) if codes.contains(&c) => {
+                    // local API error names the same code
+                    match &establish_err {
+                        Some(err) if codes.iter().any(|c| err == &format!("LocalH3Error({})", h3_display(*c))) || err == "LocallyClosed" => CaseResult::Pass { nontrivial: true, labels },
+                        other => viol("C12:e2e:local-error", format!("control stream opened with {:?}: peer saw close {c:#x} but the local API reported {:?}", case.pre, other)),
+                    }
+                }
+                other => viol(format!("C12:e2e:pre:{:?}", case.pre), format!("control stream opened with {:?}: peer saw {:?}, prescribed CONNECTION_CLOSE with one of {:x?}", case.pre, other, codes)),
+            },
+            Err(_) => viol(format!("C12:e2e:pre:{:?}", case.pre), format!("control stream opened with {:?}: the endpoint did not close the connection (prescribed {:x?}); establishment result {:?}", case.pre, codes, establish_err)),
+        };
+    }
+    let Some(app) = app else {
+        return viol("C12:e2e:valid-rejected", format!("a valid exchange was not established: {:?}", establish_err));
+    };
+    // pending peer-waiting call to observe the local error
+    let local = {
+        let a = app.clone();
+        tokio::spawn(async move {
+            loop {
+                match a.accept_bi().await {
+                    Ok(_) => continue,
+                    Err(e) => return conn_err(&e),
+                }
+            }
+        })
+    };
+    // the application also keeps draining uni streams so that valid WT streams are consumed
+    let drain = {
+        let a = app.clone();
+        tokio::spawn(async move { while a.accept_uni().await.is_ok() {} })
+    };
+    let mut model = Model::default();
+    let mut nontrivial = false;
+    for (i, ev) in case.events.iter().enumerate() {
+        if peer.req_send.is_none() && matches!(ev, Ev::SessionSettings | Ev::SessionHeaders | Ev::SessionWtSignal | Ev::SessionGrease) {
+            continue;
+        }
+        let react = model.react(ev, case.wt_is_server);
+        let own = peer.play(ev, &authority).await;
+        match react {
+            Reaction::Continue => {
+                tokio::time::sleep(Duration::from_millis(25)).await;
+                if let Some(e) = peer.conn.close_reason() {
+                    return viol(format!("C12:e2e:closed-on:{}", ev_name(ev)), format!("event #{i} {:?} is permitted but the endpoint closed the connection: {:?} (history {:?})", ev, close_seen(&e), &case.events[..=i]));
+                }
+                if let Some(s) = own {
+                    peer.held.push(Box::new(s));
+                }
+            }
+            Reaction::Refuse(codes) => {
+                nontrivial = true;
+                labels.push("reaction:refuse-stream");
+                let mut s = own.expect("request stream");
+                match tokio::time::timeout(Duration::from_secs(4), s.stopped()).await {
+                    Ok(Ok(Some(c))) if codes.contains(&c.into_inner()) => {}
+                    other => {
+                        return viol(format!("C12:e2e:refusal:{}", ev_name(ev)), format!("event #{i} {:?}: the request stream was answered with {:?}, prescribed STOP_SENDING with one of {:x?}; connection {:?}", ev, other.map(|r| r.map(|c| c.map(|v| v.into_inner()))), codes, peer.conn.close_reason().map(|e| close_seen(&e))));
+                    }
+                }
+                if let Some(e) = peer.conn.close_reason() {
+                    return viol(format!("C12:e2e:closed-on:{}", ev_name(ev)), format!("refusing {:?} must not close the connection, peer saw {:?}", ev, close_seen(&e)));
+                }
+                peer.held.push(Box::new(s));
+            }
+            Reaction::Close(codes) => {
+                labels.push("reaction:close");
+                let seen = tokio::time::timeout(Duration::from_secs(4), peer.conn.closed()).await;
+                let code = match seen {
+                    Ok(e) => match close_seen(&e) {
+                        CloseSeen::Application(c, _) if codes.contains(&c) => c,
+                        other => return viol(format!("C12:e2e:code:{}", ev_name(ev)), format!("event #{i} {:?}: peer saw {:?}, prescribed CONNECTION_CLOSE with one of {:x?} (history {:?})", ev, other, codes, &case.events[..=i])),
+                    },
+                    Err(_) => return viol(format!("C12:e2e:accepted:{}", ev_name(ev)), format!("event #{i} {:?} is prohibited (prescribed {:x?}) but the connection stays open (history {:?})", ev, codes, &case.events[..=i])),
+                };
+                match tokio::time::timeout(Duration::from_secs(4), local).await {
+                    Ok(Ok(err)) => {
+                        if err != format!("LocalH3Error({})", h3_display(code)) && err != "LocallyClosed" {
+                            return viol("C12:e2e:local-error", format!("event {:?}: wire code {code:#x} but the local API reported {err}", ev));
+                        }
+                    }
+                    _ => return CaseResult::Timeout("pending accept_bi did not fail after the protocol error".into()),
+                }
+                drain.abort();
+                return CaseResult::Pass { nontrivial: true, labels };
+            }
+        }
+    }
+    // no closing event: the session is still usable
+    let echo = async {
+        let mut s = raw_open_wt_bi(&peer.conn, peer.session).await?;
+        s.0.write_all(b"fresh-exchange").await.map_err(|e| e.to_string())?;
+        let _ = s.0.finish();
+        Ok::<_, String>(s)
+    };
+    let sent = echo.await;
+    drain.abort();
+    tokio::time::sleep(Duration::from_millis(60)).await;
+    if let Some(e) = peer.conn.close_reason() {
+        return viol("C12:e2e:closed-late", format!("history {:?} contains no prohibited event but the connection ended: {:?}", case.events, close_seen(&e)));
+    }
+    if sent.is_err() {
+        return viol("C12:e2e:unusable", "a fresh stream could not be opened after a permitted history".to_string());
+    }
+    local.abort();
+    CaseResult::Pass { nontrivial, labels }
+}
+
+fn ev_name(e: &Ev) -> String {
+    let s = format!("{e:?}");
+    s.split('(').next().unwrap_or("").to_string()
+}
+
+pub fn exec(case: &Case) -> CaseResult {
+    let c = Arc::new(case.clone());
+    match run_on(case.flavor, Duration::from_secs(40), exec_async(c)) {
+        Some(r) => r,
+        None => CaseResult::Timeout("case did not finish in 40 s".into()),
+    }
+}
+
+pub fn run(run: &Run) {
+    run.set_rule(RULE);
+    run.trust("reaction table in echecks/src/c12.rs transcribed from RFC 9114 §4.1, §6.2, §6.2.1, §7.2.x, RFC 9204 §4.2 and draft-ietf-webtrans-http3 (sets where the specifications overlap)");
+    // every single event once, on both roles
+    let singles = [
+        Ev::DuplicateControl, Ev::QpackEnc, Ev::QpackDec, Ev::UnknownUni(0x3f), Ev::FinControl, Ev::ResetControl, Ev::UniFinInsideType, Ev::UniResetInsideType, Ev::UniFinBeforeAnyByte,
+        Ev::ControlData, Ev::ControlHeaders, Ev::ControlSecondSettings, Ev::ControlOversize, Ev::ControlGrease, Ev::ControlTruncatedThenFin, Ev::RequestDataFirst, Ev::RequestSettingsFirst,
+        Ev::RequestGet, Ev::RequestNoProtocol, Ev::WtUniValid, Ev::WtUniInvalid(1), Ev::WtUniInvalid(2), Ev::WtUniInvalid(3), Ev::WtBiValid, Ev::WtBiInvalid(1), Ev::WtBiInvalid(2), Ev::WtBiInvalid(3),
+        Ev::BiGreaseThenWt, Ev::SessionSettings, Ev::SessionHeaders, Ev::SessionWtSignal, Ev::SessionGrease,
+    ];
+    let mut table: Vec<Case> = Vec::new();
+    for wt_is_server in [true, false] {
+        for (i, e) in singles.iter().enumerate() {
+            table.push(Case { flavor: (i % 3) as u8, wt_is_server, pre: Pre::Valid, events: vec![e.clone()] });
+            table.push(Case { flavor: (i % 3) as u8, wt_is_server, pre: Pre::Valid, events: vec![Ev::QpackEnc, e.clone()] });
+        }
+        for pre in [Pre::DataFirst, Pre::HeadersFirst, Pre::GreaseFirst, Pre::ReservedSetting(0), Pre::ReservedSetting(1), Pre::ReservedSetting(2), Pre::ReservedSetting(3), Pre::ReservedSetting(4), Pre::DuplicateSetting] {
+            table.push(Case { flavor: 0, wt_is_server, pre, events: vec![Ev::ControlGrease] });
+        }
+    }
+    for case in &table {
+        match judge(|| exec(case), false, "C12:e2e:hang") {
+            Outcome::Pass { nontrivial, labels } => {
+                run.eval("event-table", nontrivial, vcore::hash64(&format!("{case:?}")));
+                for l in labels {
+                    run.label(l);
+                }
+                if nontrivial && run.wants_sample("event-table") {
+                    run.sample("event-table", || serde_json::to_value(case).unwrap());
+                }
+            }
+            Outcome::Fail { signature, message } => {
+                run.eval("event-table", false, 0);
+                run.fail("histories-e2e", &signature, &message, serde_json::to_value(case).unwrap());
+            }
+            Outcome::Inconclusive(w) => run.inconclusive(&w),
+        }
+    }
+    run.section_exhaustive("event-table", true, "every single event (alone and after a QPACK encoder stream) and every control-stream opening variant, on both roles");
+    prop_search(
+        run,
+        Search { check: "histories-e2e", cases: run.tier.pick(200, 4000), workers: 8, max_shrink_iters: 80 },
+        case_strategy,
+        |c| judge(|| exec(c), false, "C12:e2e:hang"),
+        |c| serde_json::to_value(c).unwrap(),
+    );
+    for l in ["role:server", "role:client", "pre:closing", "reaction:refuse-stream", "reaction:close"] {
+        run.essential(l);
+    }
+}
+
+pub fn replay(run: &Run, doc: &Value) -> bool {
+    if doc["check"].as_str() != Some("histories-e2e") {
+        return false;
+    }
+    let Ok(case) = serde_json::from_value::<Case>(doc["case"].clone()) else {
+        return false;
+    };
+    run.eval("histories-e2e", true, 1);
+    for _ in 0..3 {
+        if let Outcome::Fail { signature, message } = judge(|| exec(&case), false, "C12:e2e:hang") {
+            run.fail("histories-e2e", &signature, &message, doc["case"].clone());
+            break;
+        }
+    }
+    true
 }
